@@ -138,6 +138,23 @@ def rand_bytes(rng, n):
     return bytes(rng.getrandbits(8) for _ in range(n))
 
 
+def far_repeat(rng, n):
+    """n bytes in which blocks repeat at distances around the deflate window
+    sizes (256 B .. 32 KiB): back-references that only a large enough window
+    can resolve."""
+    if n <= 0:
+        return b''
+    blk = rng.choice([300, 600, 1100, 2100, 5000, 9000, 17000, 33000])
+    seed = rng.getrandbits(64).to_bytes(8, 'big')
+    block = b''
+    i = 0
+    while len(block) < min(blk, n):
+        block += hashlib.sha256(seed + bytes([i % 256, i // 256])).digest()
+        i += 1
+    block = block[:blk]
+    return (block * (n // len(block) + 2))[:n]
+
+
 def rand_cuts(rng, n, maxcuts=8):
     if n <= 1:
         return []
